@@ -202,25 +202,30 @@ def to_trace(w):
 def explore(h, scen, rnd, budget, ctx, est_len=80, dfs_share=0.4, max_steps=4000):
     """Bounded-preemption DFS (stateless, by re-execution) + random walks + PCT walks. Yields worlds."""
     n = 0
-    # 1. systematic: preemption bound 0, 1, 2 ... within the DFS share of the budget
+    # 1. systematic: preemption bound 0, 1, 2 ... each bound gets a share of the DFS budget (bound 0 alone - which task runs
+    #    when the running one blocks - is already a large space; one and two preemptions are where the races are)
     dfs_budget = int(budget * dfs_share)
     frontier = [([], 0)]          # (script prefix, preemptions used)
     bound = 0
     pending_next = []
     seen_scripts = set()
+    per_bound = max(1, dfs_budget // 3)
+    used_in_bound = 0
     while n < dfs_budget:
-        if not frontier:
+        if not frontier or used_in_bound >= per_bound:
             bound += 1
-            if bound > 3 or not pending_next:
+            used_in_bound = 0
+            if bound > 2 or not pending_next:
                 break
-            frontier, pending_next = pending_next, []
+            # breadth first over the preemption points: earliest scripts first
+            pending_next.sort(key=len)
+            frontier, pending_next = pending_next[::-1], []
         prefix, used = frontier.pop()
         w = h.execute(scen, S.scripted_chooser(prefix), max_steps)
         n += 1
+        used_in_bound += 1
         yield w
         # children: at every step at or after the prefix, every alternative
-        pre = used
-        cnt = 0
         for i, (chosen, enabled, last_enabled) in enumerate(w.choices):
             if i < len(prefix):
                 continue
@@ -235,11 +240,8 @@ def explore(h, scen, rnd, budget, ctx, est_len=80, dfs_share=0.4, max_steps=4000
                 seen_scripts.add(script)
                 if used + cost <= bound:
                     frontier.append((list(script), used + cost))
-                elif used + cost == bound + 1:
+                elif used + cost == bound + 1 and len(pending_next) < 100000:
                     pending_next.append((list(script), used + cost))
-                cnt += 1
-        if len(pending_next) > 200000:
-            pending_next = pending_next[:200000]
     ctx.extra.setdefault("exploration", []).append({"scenario": scen.get("name"), "dfs_runs": n, "preemption_bound_reached": bound})
     # 2. random walks and PCT walks
     while n < budget:
